@@ -1503,7 +1503,11 @@ func SelectExpr(query *Query, current Map, expr *sqlparser.SelectExprs, opts ...
 			{
 				for key, value := range current {
 					query.postProcessors = append(query.postProcessors, func() error {
-						delete(data, "<-")
+						// nothing is written into a row that has no marker: a
+						// SPIN call that was handed the row may be reading it
+						if _, marked := data["<-"]; marked {
+							delete(data, "<-")
+						}
 						return nil
 					})
 					// neither the back-navigation marker nor a not yet evaluated
